@@ -62,6 +62,11 @@ pub open spec fn flat_opt<T>(o: Option<Vec<T>>) -> Seq<T> { match o { Some(v) =>
 pub open spec fn flat_vv<T>(vv: Seq<Vec<T>>) -> Seq<T> decreases vv.len() { if vv.len() == 0 { Seq::empty() } else { flat_vv(vv.drop_last()) + vv.last()@ } }
 pub proof fn lemma_flat_vv_push<T>(vv: Seq<Vec<T>>, v: Vec<T>) ensures flat_vv(vv.push(v)) == flat_vv(vv) + v@ { assert(vv.push(v).drop_last() =~= vv); }
 pub proof fn lemma_flat_vv_take<T>(vv: Seq<Vec<T>>, k: int) requires 0 <= k < vv.len() ensures flat_vv(vv.take(k + 1)) == flat_vv(vv.take(k)) + vv[k]@ { assert(vv.take(k + 1).drop_last() =~= vv.take(k)); }
+/// `dst.extend(x.iter().flatten())` for an optional vector / a vector of vectors: the elements in order
+pub trait Flat2 { spec fn flat2(&self) -> Seq<Fv>; fn flat_into(&self, dst: &mut Vec<Fv>) ensures final(dst)@ == old(dst)@ + self.flat2(); }
+impl Flat2 for Option<Vec<Fv>> { open spec fn flat2(&self) -> Seq<Fv> { flat_opt(*self) } #[verifier::external_body] fn flat_into(&self, dst: &mut Vec<Fv>) { unimplemented!() } }
+impl Flat2 for Vec<Vec<Fv>> { open spec fn flat2(&self) -> Seq<Fv> { flat_vv(self@) } #[verifier::external_body] fn flat_into(&self, dst: &mut Vec<Fv>) { unimplemented!() } }
+#[verifier::external_body] pub fn total_len_of(v: &Vec<Vec<Fv>>) -> usize { unimplemented!() }
 } // verus!
 '''
 
@@ -188,6 +193,26 @@ def build():
         # values.extend(<call>) with an owned vector
         f.rewrite_re('R6', r'values\.extend\((\w+(?:::\w+)*\(\s*[^;]*?\))\);', r'let tmp_ = \1; values.extend_from_slice(tmp_.as_slice());', min_count=0, flags_dotall=True)
         f.rewrite_re('R6', r'values\.extend\((\w+)\);', r'values.extend_from_slice(\1.as_slice());', min_count=0)
+        # R6 (general forms): `values.extend(X.iter().flatten());` for X an Option<Vec<_>> or a Vec<Vec<_>> -> X.flat_into(&mut values) (trait Flat2: the elements in order);
+        # `X.as_ref().map_or(D, Vec::len)` -> match; `X.iter().map(Vec::len).sum::<usize>()` -> total_len_of(X); destructuring of a borrowed local -> one borrow per field
+        f.rewrite_re('R6', r'values\.extend\((\w+)\.iter\(\)\.flatten\(\)\);', r'\1.flat_into(&mut values);', min_count=0)
+        f.rewrite_re('R6', r'(\w+)\.as_ref\(\)\.map_or\((\w+), Vec::len\)', r'(match \1 { Some(v_) => v_.len(), None => \2 })', min_count=0)
+        f.rewrite_re('R6', r'(\w+)\.iter\(\)\.map\(Vec::len\)\.sum::<usize>\(\)', r'total_len_of(\1)', min_count=0)
+        # a capacity is an allocation hint: `Vec::with_capacity(n)` -> `Vec::new()`, and a local used for nothing else is dropped with it (its length sum is not part of the result)
+        mc = re.search(r'let mut values = Vec::with_capacity\((\w+)\);', f.body)
+        if mc:
+            nm = mc.group(1)
+            f.body = f.body[:mc.start()] + 'let mut values: Vec<Fv> = Vec::new();' + f.body[mc.end():]
+            ml = re.search(r'let ' + nm + r'\b[^;]*;', f.body)
+            if ml and len(re.findall(r'(?<![.\w])' + nm + r'\b', f.body)) == 1:
+                f.body = f.body[:ml.start()] + f.body[ml.end():]
+            f.rewrites.append(('R6', f'`Vec::with_capacity({nm})` -> `Vec::new()`; the hint-only local `{nm}` dropped', ''))
+        md = re.search(r'let (\w+) \{([^}]*)\} = (\w+);', f.body)
+        while md and md.group(3) != 'input':
+            names = [x.strip() for x in md.group(2).split(',') if x.strip()]
+            f.body = f.body[:md.start()] + ' '.join(f'let {x} = &{md.group(3)}.{x};' for x in names) + f.body[md.end():]
+            f.rewrites.append(('R1', f'destructuring `let {md.group(1)} {{ .. }} = {md.group(3)};` -> one borrow per field', ''))
+            md = re.search(r'let (\w+) \{([^}]*)\} = (\w+);', f.body)
         return f
 
     IMPL2 = r'impl<SC: StarkGenericConfig> Recursive<SC::Challenge> for OpenedValuesTargetsWithLookups<SC>'
